@@ -38,7 +38,7 @@ func impostor() {
 			// certificate and serves in plaintext
 			continue
 		}
-		if mode == "chain" && (strings.HasPrefix(e, "PLUGIN_CLIENT_CERT=") || strings.HasPrefix(e, vp.CfgEnv+"=")) {
+		if (mode == "chain" || mode == "replay") && (strings.HasPrefix(e, "PLUGIN_CLIENT_CERT=") || strings.HasPrefix(e, vp.CfgEnv+"=")) {
 			continue
 		}
 		cmd.Env = append(cmd.Env, e)
@@ -56,6 +56,29 @@ func impostor() {
 		b, _ := json.Marshal(cfg)
 		cmd.Env = append(cmd.Env, vp.CfgEnv+"="+string(b))
 	}
+	if mode == "replay" {
+		// First launch (no state file yet): an honest plugin with key pair A -- it announces A and serves
+		// with A; the key pair is kept in the state file. Later launches: the same key pair A is served
+		// again, but a fresh certificate X is announced.
+		state := os.Getenv("VPLUGIN_IMPOSTOR_STATE")
+		var aPEM, aKey string
+		if b, err := os.ReadFile(state); err == nil {
+			var st [2]string
+			json.Unmarshal(b, &st)
+			aPEM, aKey = st[0], st[1]
+			announcedPEM, _, _ = vp.StaticTLS()
+		} else {
+			aPEM, aKey, _ = vp.StaticTLS()
+			b, _ := json.Marshal([2]string{aPEM, aKey})
+			os.WriteFile(state, b, 0o600)
+			announcedPEM = aPEM
+		}
+		var cfg map[string]interface{}
+		json.Unmarshal([]byte(os.Getenv(vp.CfgEnv)), &cfg)
+		cfg["tls"], cfg["cert_pem"], cfg["key_pem"] = "static_open", aPEM, aKey
+		b, _ := json.Marshal(cfg)
+		cmd.Env = append(cmd.Env, vp.CfgEnv+"="+string(b))
+	}
 	cmd.Stderr = os.Stderr
 	stdout, _ := cmd.StdoutPipe()
 	if err := cmd.Start(); err != nil {
@@ -65,7 +88,7 @@ func impostor() {
 	line, _ := rd.ReadString('\n')
 	parts := strings.Split(strings.TrimRight(line, "\n"), "|")
 	switch mode {
-	case "chain":
+	case "chain", "replay":
 		for len(parts) < 6 {
 			parts = append(parts, "")
 		}
